@@ -18,7 +18,7 @@ Definition err_future : daerr := {| e_nf := false; e_fut := true |}.
 Inductive blob :=
 | BHeader (id : N)      (* proposer-signed header: unmarshals, ValidateBasic = nil, proposer = genesis proposer (retriever.go:112-146) *)
 | BData (id : N)        (* proposer-signed SignedData, at least one tx, Metadata present (retriever.go:160-186) *)
-| BEmptyData            (* proposer-signed SignedData without txs: ignored (retriever.go:167) *)
+| BEmptyData            (* SignedData that decodes to no txs at all: ignored (retriever.go:167) *)
 | BDataNoMeta (id : N)  (* proposer-signed SignedData, at least one tx, Metadata ABSENT: ignored (retriever.go:171-175,
                            since "fix: retriever: signed data without metadata no longer panics the DA scan";
                            before it: nil dereference in signedData.Height(), see known_findings.json) *)
@@ -364,3 +364,138 @@ Fixpoint all_pass (c : cfg) (cur : N) (hs : list hinfo) : Prop :=
 
 (* the iterations of a loop run are those of wake-ups served one after the other *)
 Definition is_prefix {A} (a b : list A) : Prop := exists s, b = a ++ s.
+
+(* ==== the PAYLOAD of signed data: what is handed to sync vs what was posted =========================
+   Above, a data blob is a class with an id.  Here a SignedData blob is described the way it was POSTED —
+   its transaction list as it stands in the repeated bytes field, whether Metadata is present, who signed
+   what — and the path  SignedData.UnmarshalBinary -> Data.FromProto -> byteSlicesToTxs  (types/serialization.go)
+   -> handlePotentialData -> isValidSignedData (re-marshal the DECODED data, verify the signature over these
+   bytes; block/manager.go:1101-1119) decides its class AND the transaction list carried by the NewDataEvent.
+   A transaction is opaque: a number names a byte string (the harness numbers the byte strings of a case);
+   all the codec can see of a transaction is whether it is the zero-length byte string, which is number 0. *)
+Definition tx := N.
+Definition tx_nonempty (t : tx) : bool := negb (t =? 0).
+
+Fixpoint txs_eqb (a b : list tx) : bool :=
+  match a, b with
+  | [], [] => true
+  | x :: a', y :: b' => (x =? y) && txs_eqb a' b'
+  | _, _ => false
+  end.
+
+(* types/serialization.go:330-340 txsToByteSlices (Data.ToProto): one entry per transaction, in order,
+   zero-length ones included *)
+Definition txs_to_slices (l : list tx) : list tx := map (fun t => t) l.
+
+(* How the decoder turns the repeated bytes field into Txs. *)
+Inductive txdecode :=
+| DCopyAll      (* byteSlicesToTxs, types/serialization.go:342-351: EVERY entry becomes a transaction — the code *)
+| DSkipEmpty.   (* entries of length zero are left out — NOT the code; the variant the theorems rule out *)
+
+Definition slices_to_txs (m : txdecode) (l : list tx) : list tx :=
+  match m with
+  | DCopyAll => map (fun t => t) l
+  | DSkipEmpty => filter tx_nonempty l
+  end.
+
+(* a blob that unmarshals as pb.SignedData, as posted *)
+Record sdpost := { sp_id : N;                       (* the harness's name of the Data (its DACommitment: a function of the tx list) *)
+                   sp_wire : list tx;               (* Data.Txs on the wire: the repeated bytes field, entry by entry *)
+                   sp_meta : bool;                  (* Data.Metadata present *)
+                   sp_signer : bool;                (* Signer.Address = genesis proposer = KeyAddress(Signer.PubKey), manager.go:1105-1111 *)
+                   sp_sigfor : option (list tx) }.  (* the tx list of the Data (same Metadata) over whose MarshalBinary
+                                                       Signature verifies under Signer.PubKey; None = over none *)
+
+Definition decode_sd (m : txdecode) (sp : sdpost) : list tx := slices_to_txs m (sp_wire sp).
+
+(* isValidSignedData, manager.go:1101-1119, on the DECODED transactions: the signature is checked against
+   the bytes of the re-marshalled data *)
+Definition sig_valid (sp : sdpost) (txs : list tx) : bool :=
+  sp_signer sp && match sp_sigfor sp with Some l => txs_eqb (txs_to_slices txs) l | None => false end.
+
+Definition junk_bad_signed_data : N := 200.
+
+(* handlePotentialData, retriever.go:160-196: the class of a SignedData blob *)
+Definition classify_sd (m : txdecode) (sp : sdpost) : blob :=
+  let txs := decode_sd m sp in
+  match txs with
+  | [] => BEmptyData                                                     (* :167 len(signedData.Txs) == 0 *)
+  | _ => if negb (sp_meta sp) then BDataNoMeta (sp_id sp)                (* :171 *)
+         else if sig_valid sp txs then BData (sp_id sp)                  (* :178 *)
+         else BJunk junk_bad_signed_data
+  end.
+
+Inductive post :=
+| PHeader (id : N)        (* as BHeader *)
+| PSigned (sp : sdpost)
+| PJunk (k : N).          (* as BJunk: everything that is neither *)
+
+Definition classify (m : txdecode) (p : post) : blob :=
+  match p with PHeader id => BHeader id | PSigned sp => classify_sd m sp | PJunk k => BJunk k end.
+
+Record hpost := { hp_posts : list post; hp_outs : list outcome }.
+
+(* the DA as the class-level model above sees it *)
+Definition da_of (m : txdecode) (pda : list hpost) : list hinfo :=
+  map (fun h => {| h_blobs := map (classify m) (hp_posts h); h_outs := hp_outs h |}) pda.
+
+(* events with their payload: NewDataEvent{&signedData.Data, daHeight} carries the DECODED transactions *)
+Inductive pevent := PEHeader (id daH : N) | PEData (id daH : N) (txs : list tx).
+Definition erase (e : pevent) : event :=
+  match e with PEHeader id d => EHeader id d | PEData id d _ => EData id d end.
+
+(* retriever.go:83-92 over the posted blobs, events with payload *)
+Fixpoint phandle (m : txdecode) (c : cfg) (daH : N) (posts : list post) : list pevent :=
+  match posts with
+  | [] => []
+  | p :: r =>
+      let ev := phandle m c daH r in
+      match p with
+      | PHeader id => if mem id (c_seen_h c) then ev else PEHeader id daH :: ev
+      | PJunk _ => ev
+      | PSigned sp =>
+          let txs := decode_sd m sp in                                   (* retriever.go:162 UnmarshalBinary *)
+          match txs with
+          | [] => ev                                                     (* :167 *)
+          | _ => if negb (sp_meta sp) then ev                            (* :171 *)
+                 else if negb (sig_valid sp txs) then ev                 (* :178 *)
+                 else if mem (sp_id sp) (c_seen_d c) then ev             (* :187 *)
+                 else PEData (sp_id sp) daH txs :: ev                    (* :191 *)
+          end
+      end
+  end.
+
+(* ---- the specification side: in terms of what was POSTED only ---------------------------------------- *)
+(* a genuine data blob: signed by the proposer over exactly the transactions it carries, at least one
+   transaction (of ANY length, zero included), Metadata present *)
+Definition genuineb (sp : sdpost) : bool :=
+  sp_signer sp && sp_meta sp && (match sp_wire sp with [] => false | _ => true end) &&
+  match sp_sigfor sp with Some l => txs_eqb (sp_wire sp) l | None => false end.
+
+(* what sync must be handed from the posts found at DA height daH: every genuine, not yet seen header, and
+   every genuine, not yet seen data blob WITH THE TRANSACTION LIST AS POSTED, in DA order *)
+Definition posted_events (c : cfg) (daH : N) (posts : list post) : list pevent :=
+  flat_map (fun p => match p with
+                     | PHeader id => if mem id (c_seen_h c) then [] else [PEHeader id daH]
+                     | PSigned sp => if genuineb sp && negb (mem (sp_id sp) (c_seen_d c))
+                                     then [PEData (sp_id sp) daH (sp_wire sp)] else []
+                     | PJunk _ => []
+                     end) posts.
+
+(* the posts the DA holds at absolute height n *)
+Definition pcontent (c : cfg) (pda : list hpost) (n : N) : list post :=
+  if n <? boot c then [] else nth (N.to_nat (n - boot c)) (map hp_posts pda) [].
+
+(* what an iteration hands over, with payload: on a successful fetch, handlePotentialHeader/Data over the posts *)
+Definition handed (m : txdecode) (c : cfg) (pda : list hpost) (r : iter_rec) : list pevent :=
+  if succeeded (i_classes r) then phandle m c (i_height r) (pcontent c pda (i_height r)) else [].
+
+(* One iteration hands over what was posted when: the blobs it was offered are the classes of the posts the DA
+   holds at its height; what it hands over (with payload) is, payload erased, exactly its events; and it is,
+   on a successful fetch, exactly the genuine unseen headers and the genuine unseen data blobs of that height
+   in DA order, each data event carrying the transaction list AS POSTED (zero-length entries included). *)
+Definition handed_ok (c : cfg) (pda : list hpost) (r : iter_rec) : Prop :=
+  i_blobs r = map (classify DCopyAll) (pcontent c pda (i_height r)) /\
+  map erase (handed DCopyAll c pda r) = i_events r /\
+  handed DCopyAll c pda r =
+  (if succeeded (i_classes r) then posted_events c (i_height r) (pcontent c pda (i_height r)) else []).
